@@ -390,6 +390,13 @@ def gen_spec_lean(spec: dict) -> str:
     o.append(",\n".join(f"  ({lstr(n)}, {'none' if m is None else 'some ' + str(m)})" for n, m in spec["msg_ids"]))
     o.append("]")
     o.append("")
+    o.append("/-- format_list / names of every shipped class, frozen at the pinned commit -/")
+    o.append("def frozenLayouts : List (String × List FRef × List String) := [")
+    o.append(",\n".join(
+        f"  ({lstr(e['name'])}, [{', '.join('.' + k + ' ' + lstr(r) for k, r in e['refs'])}], "
+        f"[{', '.join(lstr(n) for n in e['names'])}])" for e in spec["layouts"]))
+    o.append("]")
+    o.append("")
     o.append("end Ipv8.C02.Spec")
     o.append("")
     return "\n".join(o)
